@@ -7,6 +7,7 @@ import (
 	"path/filepath"
 	"strings"
 	"sync"
+	"sync/atomic"
 	"time"
 
 	"go.nanomsg.org/mangos/v3"
@@ -291,6 +292,40 @@ func runC20(c *Ctx) {
 				c.Violate(fmt.Sprintf("macat %v: sent the message %d times (requested %d), finished=%v err=%v", args[3:], got, tc.count, finished, err),
 					map[string]interface{}{"args": args, "received": got, "want": tc.count})
 			}
+		}
+	}
+	// request / reply patterns send once per interval, the requested number of times — also with an interval of zero
+	for _, iv := range []string{"0", "1ms"} {
+		seq++
+		addr := fmt.Sprintf("inproc://verif-c20-%d-%d", c.Seed, seq)
+		srv, _ := rep.NewSocket()
+		if err := srv.Listen(addr); err != nil {
+			continue
+		}
+		_ = srv.SetOption(mangos.OptionRecvDeadline, 300*time.Millisecond)
+		var nreq int32
+		srvDone := make(chan struct{})
+		go func() {
+			defer close(srvDone)
+			for {
+				m, e := srv.Recv()
+				if e != nil {
+					return
+				}
+				if string(m) == "ping" {
+					atomic.AddInt32(&nreq, 1)
+				}
+				_ = srv.Send([]byte("pong"))
+			}
+		}()
+		args := []string{"--req", "--connect", addr, "--data", "ping", "--send-interval", iv, "--count", "3", "--recv-timeout", "1", "--raw"}
+		out, err, finished := macatRun(args...)
+		<-srvDone
+		_ = srv.Close()
+		c.Class("sendrecv count3 interval="+iv, true)
+		if got := atomic.LoadInt32(&nreq); !finished || got != 3 || strings.Count(out, "pong") != 3 {
+			c.Violate(fmt.Sprintf("macat %v: the peer received %d requests and macat printed %d replies (3 each requested); finished=%v err=%v", args, got, strings.Count(out, "pong"), finished, err),
+				map[string]interface{}{"args": args, "requests": got})
 		}
 	}
 	// receiving side: records printed one per message in each format
